@@ -421,13 +421,24 @@ SCENARIO(v1_cleanup) {
   w.finish();
 }
 
-// request_stop() on one thread, complete() on another, worker nesting and completing
+// T0 nests op0 and runs complete(); T1 completes op0; T2 calls request_stop()
 SCENARIO(v1_stop_join) {
   World<V1> w(1, 1, 3);
-  int t1 = rt::spawn([&] { w.spawn_nest(0); w.fire(0); });
+  w.spawn_nest(0);
+  int t1 = rt::spawn([&] { w.fire(0); });
   int t2 = rt::spawn([&] { w.request_stop(); });
   w.join(0);
   rt::join(t1); rt::join(t2);
+  w.finish();
+}
+
+// request_stop() racing with the admission and start of op0; T0 then runs complete()
+SCENARIO(v1_stop_spawn) {
+  World<V1> w(1, 1, 3);
+  int t1 = rt::spawn([&] { w.spawn_nest(0); w.fire(0); });
+  w.request_stop();
+  w.join(0);
+  rt::join(t1);
   w.finish();
 }
 
